@@ -93,6 +93,69 @@ theorem wiring_pinned :
     (Generated.wiring.lookup "stepOutputServicesExist").map (·.2.1) = some ["!value output.ValidateServicesExist", "=Missing services"] := by
   decide
 
+/-! ### what acceptance means for the generated container -/
+
+/-- **an accepted container never looks up a service that does not exist**: when the validator accepts, every service
+reference — of a service (constructor arguments, calls, fields) or of a decorator — names a declared service, so the lookup
+the runtime performs for it (`svcByName`) finds a definition -/
+theorem accepted_service_refs_resolve (o : Output) (h : validateServicesExist o = []) :
+    (∀ s ∈ o.services, ∀ a ∈ s.allArgs, ∀ n ∈ a.depServices, (o.services.find? (·.name == n)).isSome = true) ∧
+    (∀ d ∈ o.decorators, ∀ a ∈ d.args, ∀ n ∈ a.depServices, (o.services.find? (·.name == n)).isSome = true) := by
+  have hx := (services_exist_exact o).mp h
+  have found : ∀ n, n ∈ declaredServices o → (o.services.find? (·.name == n)).isSome = true := by
+    intro n hn
+    obtain ⟨s, hs, rfl⟩ := List.mem_map.mp hn
+    rw [List.find?_isSome]
+    exact ⟨s, hs, by simp⟩
+  constructor
+  · intro s hs a ha n hn
+    apply found
+    apply hx (s.name, n)
+    unfold serviceRefs
+    simp only [List.mem_append, List.mem_flatMap, List.mem_map]
+    exact Or.inl ⟨s, hs, n, ⟨a, ha, hn⟩, rfl⟩
+  · intro d hd a ha n hn
+    apply found
+    obtain ⟨i, hlt, hget⟩ := List.mem_iff_getElem.mp hd
+    have hz : (d, i) ∈ o.decorators.zipIdx := List.mem_zipIdx_iff_getElem?.mpr (by simp [hget, hlt])
+    apply hx ("decorator(#" ++ toString i ++ ", " ++ q d.tag ++ ")", n)
+    unfold serviceRefs
+    simp only [List.mem_append, List.mem_flatMap, List.mem_map]
+    exact Or.inr ⟨(d, i), hz, n, ⟨a, ha, hn⟩, rfl⟩
+
+/-- … nor a parameter that does not exist: every `%reference%` of a parameter, a service or a decorator names a declared parameter -/
+theorem accepted_param_refs_resolve (o : Output) (h : validateParamsExist o = []) :
+    (∀ p ∈ o.params, ∀ n ∈ p.dependsOn, (o.params.find? (·.name == n)).isSome = true) ∧
+    (∀ s ∈ o.services, ∀ a ∈ s.allArgs, ∀ n ∈ a.depParams, (o.params.find? (·.name == n)).isSome = true) ∧
+    (∀ d ∈ o.decorators, ∀ a ∈ d.args, ∀ n ∈ a.depParams, (o.params.find? (·.name == n)).isSome = true) := by
+  have hx := (params_exist_exact o).mp h
+  have found : ∀ n, n ∈ declaredParams o → (o.params.find? (·.name == n)).isSome = true := by
+    intro n hn
+    obtain ⟨p, hp, rfl⟩ := List.mem_map.mp hn
+    rw [List.find?_isSome]
+    exact ⟨p, hp, by simp⟩
+  refine ⟨?_, ?_, ?_⟩
+  · intro p hp n hn
+    apply found
+    apply hx ("%" ++ p.name ++ "%", n)
+    unfold paramRefs
+    simp only [List.mem_append, List.mem_flatMap, List.mem_map]
+    exact Or.inl (Or.inl ⟨p, hp, n, hn, rfl⟩)
+  · intro s hs a ha n hn
+    apply found
+    apply hx ("@" ++ s.name, n)
+    unfold paramRefs
+    simp only [List.mem_append, List.mem_flatMap, List.mem_map]
+    exact Or.inl (Or.inr ⟨s, hs, n, ⟨a, ha, hn⟩, rfl⟩)
+  · intro d hd a ha n hn
+    apply found
+    obtain ⟨i, hlt, hget⟩ := List.mem_iff_getElem.mp hd
+    have hz : (d, i) ∈ o.decorators.zipIdx := List.mem_zipIdx_iff_getElem?.mpr (by simp [hget, hlt])
+    apply hx ("decorator(#" ++ toString i ++ ", " ++ q d.tag ++ ")", n)
+    unfold paramRefs
+    simp only [List.mem_append, List.mem_flatMap, List.mem_map]
+    exact Or.inr ⟨(d, i), hz, n, ⟨a, ha, hn⟩, rfl⟩
+
 -- non-vacuity: a decorator argument referencing an undeclared parameter IS a reference position
 def witness : Output :=
   { decorators := [{ tag := "t", decorator := "f", raw := "f", args := [{ code := "", raw := .str "%x%", depParams := ["x"] }] }] }
